@@ -788,3 +788,55 @@ Definition run_script_cmd v sv creators wake_rank calc_rank cont always base_of 
   | Some d0 => let r := run_script v names creators wake_rank calc_rank cont always fuel ops d0 in
                (enc_dtrace (fst r) ++ [-1; zN (snd r); -2; zb (init_okb names d0)])%Z
   end.
+
+(* ---------------- several runs in ONE process: which DelayedLoader object a placeholder task gets ----------------
+   doit/loader.py create_after (17-38) stores ONE DelayedLoader on the creator function (func.doit_create_after); it lives as
+   long as the function object: across every load_tasks / TaskControl / run of the process (DoitMain.run twice, doit.api, the
+   IPython %doit magic, a test-suite of a dodo file).  load_tasks._add_delayed (174-186) gives every placeholder task an object
+   of its own: copy.copy of the function's loader (every attribute: creator, task_dep, basename, created, target_regex), then
+   creator := the reference found at load time.  Loader objects are the addresses of the heap [q_ld]; _filter_tasks writes
+   loader.basename (control.py 219, 245) and the dispatcher writes loader.created (505, 524) through the objects the TASKS refer to.
+   [fobj c] = the address of the object stored on creator function c; the copy made for the placeholder named T has the address T
+   (the convention of everything above: "one DelayedLoader per placeholder, identified by the name of the task load_tasks created
+   it for").  A run of the model starts from [loaded tab ld tg]: the theorems on runs speak about a process only if what
+   load_tasks hands out does not depend on earlier runs -- each run starts from fresh DelayedLoader copies -- which is what
+   [load_heap LdCopy] does and what C15_function_loader_never_written (Properties/C15.v) proves from the frame property of runs.
+   [LdShare] = the seeded change C15e: a plain-function creator without `creates` gets the function's object itself. *)
+Inductive loadver := LdCopy | LdShare.
+
+Section Process.
+Variable fobj : N -> name.              (* creator function c |-> address of func.doit_create_after *)
+Variable owner : name -> option N.      (* Some c: load_tasks makes a placeholder task of this name for creator function c
+                                           (the function's name, or an entry of `creates`) *)
+Variable shares : name -> bool.         (* that creator declares no `creates` and `delayed.creator is ref` (plain function) *)
+
+(* the loader object of the placeholder named T after load_tasks (180-182) *)
+Definition loader_of (lv : loadver) (T : name) : name :=
+  match lv with
+  | LdCopy => T
+  | LdShare => match owner T with Some c => if shares T then fobj c else T | None => T end
+  end.
+
+(* the heap after load_tasks: every new object is a copy of the object stored on the function; all other objects untouched *)
+Definition load_heap (lv : loadver) (heap : name -> loader) : name -> loader :=
+  fun A => match owner A with
+           | Some c => if loader_of lv A =? A then heap (fobj c) else heap A
+           | None => heap A end.
+
+(* the task list of load_tasks as TaskControl.__init__ stores it: Task(tname, None, loader=this_delayed) per placeholder
+   (task.py 225-228: loader.task_dep becomes a task_dep), the static tasks as they are *)
+Definition load_tab (lv : loadver) (heap : name -> loader) (statics : name -> option dtask) : name -> option dtask :=
+  fun k => match owner k with
+           | Some _ => Some (placeholder (load_heap lv heap (loader_of lv k)) (loader_of lv k) [])
+           | None => statics k end.
+
+(* what load_tasks + TaskControl.__init__ leave in a process whose loader objects are [heap] *)
+Definition load_state (lv : loadver) (heap : name -> loader) (statics : name -> option dtask) (tg : name -> option name) : dst :=
+  loaded (load_tab lv heap statics) (load_heap lv heap) tg.
+End Process.
+
+(* the loader objects as a run leaves them (the final state of the serial runner / of a script of runner calls) *)
+Definition heap_after_serial v keys creators wake_rank calc_rank cont always (fuel : nat) (d0 : dst) : name -> loader :=
+  q_ld (r_d (fst (serial v keys creators wake_rank calc_rank cont always fuel (r_init d0) None))).
+Definition heap_after_script v keys creators wake_rank calc_rank cont always (fuel : nat) (ops : list sop) (d0 : dst) : name -> loader :=
+  q_ld (r_d (fst (run_ops v keys creators wake_rank calc_rank cont always fuel ops (r_init d0)))).
